@@ -4,11 +4,17 @@
 (* must equal the per-assertion oracle; the fold is NOT used on this path.  *)
 EXTENDS TimeLocks, TraceUtil
 
+BigMax == <<2, 143, 166, 174, 0>>
+\* everything except the lock/birth assertions is judged by the condition machine
+BaseOk(tree) == Accepted(Run([tree |-> StripLocks(tree), flags |-> {"DONT_VALIDATE_SIGNATURE"}, max |-> BigMax, clvm |-> Zero,
+                                  vis |-> "empty", consts |-> [me |-> <<>>, parent |-> <<>>, puzzle |-> <<>>, amount |-> <<>>,
+                                  puzzle_amount |-> <<>>, parent_amount |-> <<>>, parent_puzzle |-> <<>>], validKeys |-> {}]))
 MatchTl(e) ==
   /\ ~e.panic
-  /\ \A i \in DOMAIN e.chains :
+  /\ LET base == BaseOk(e.tree) IN
+     \A i \in DOMAIN e.chains :
        LET ch == e.chains[i] IN
-       ConsistentChain(ch) => (ch.ok = Oracle(e.tree, ch))
+       ConsistentChain(ch) => (ch.ok = (base /\ Oracle(e.tree, ch)))
   \* a bundle rejected at parse time has no satisfying chain state among those tried
   /\ ~e.parse_ok => \A i \in DOMAIN e.chains : ~e.chains[i].ok
 
